@@ -46,6 +46,11 @@ Proof.
   - intros i _. rewrite !nth_skipn_plus. apply H. lia.
 Qed.
 
+(* the file a replay of the one-extent journal [(s, n)] at position (jgen, jslot) leaves behind *)
+Definition rolled_back (img : image) (jgen jslot s n : N) : image :=
+  let q := jnext (mkjpos jgen jslot) in
+  write_journal (write_markers img [(s, n)]) (j_slot q) (j_gen q) JOURNAL_CLEAR [].
+
 Theorem crashed_batch_is_rolled_back c img m jgen jslot its1 r its2 :
   c_ro c = false -> c_now c = None ->
   (17 <= length img)%nat ->
@@ -68,7 +73,8 @@ Theorem crashed_batch_is_rolled_back c img m jgen jslot its1 r its2 :
     (forall r', In r' (recs_of (its1 ++ its2)) -> exists s', idx_find (r_key r') (o_idx o) = Some (entry_of v r' s')) /\
     o_count o = N.of_nat (length (recs_of (its1 ++ its2))) /\
     (forall b, FEOX_DATA_START_BLOCK <= b < total ->
-               (free (o_fs o) b <-> ~ covered v FEOX_DATA_START_BLOCK (its1 ++ IMark n :: its2) b)).
+               (free (o_fs o) b <-> ~ covered v FEOX_DATA_START_BLOCK (its1 ++ IMark n :: its2) b)) /\
+    img' = rolled_back img jgen jslot s n.
 Proof.
   intros Hrw Hnow Hlen total mb v s n Hsig Hdec Htok Hj Hg Hu Hok Hd Himg.
   set (its := its1 ++ IRec r :: its2) in *.
@@ -141,5 +147,167 @@ Proof.
   eexists. eexists. split; [reflexivity|]. cbn [o_idx o_count o_fs].
   split; [exact Ll1|]. split; [exact S1|].
   split; [intros r' Hr'; apply Found; rewrite Hrecs; exact Hr'|].
-  split; [rewrite Cnt, Hrecs; reflexivity|exact Part].
+  split; [rewrite Cnt, Hrecs; reflexivity|]. split; [exact Part|reflexivity].
+Qed.
+
+(* ---- and the rolled-back file is a file at rest: opening it again changes nothing ---- *)
+Lemma decode_journal_inv s0 s1 total g slot e :
+  decode_journal s0 s1 total = Some (g, slot, e) -> e <> [] ->
+  (slot = 0 /\ all_zero s0 = false /\ decode_slot s0 total = Some (g, e)) \/
+  (slot = 1 /\ all_zero s1 = false /\ decode_slot s1 total = Some (g, e)).
+Proof.
+  unfold decode_journal. cbv zeta. intros H Hne.
+  destruct (all_zero s0) eqn:Z0; destruct (all_zero s1) eqn:Z1.
+  - cbn in H. inversion H; subst. contradiction.
+  - destruct (decode_slot s1 total) as [[g1 e1]|] eqn:D1; cbn in H; [|inversion H; subst; contradiction]. inversion H; subst. right. auto.
+  - destruct (decode_slot s0 total) as [[g0 e0]|] eqn:D0; cbn in H; [|inversion H; subst; contradiction]. inversion H; subst. left. auto.
+  - destruct (decode_slot s0 total) as [[g0 e0]|] eqn:D0; destruct (decode_slot s1 total) as [[g1 e1]|] eqn:D1; cbn in H.
+    + destruct (g1 <? g0); inversion H; subst; [left|right]; auto.
+    + inversion H; subst. left. auto.
+    + inversion H; subst. right. auto.
+    + discriminate.
+Qed.
+
+Lemma slot_bytes_unchanged (img img' : image) k :
+  length img' = length img ->
+  (forall i, (N.to_nat (ALLOCATION_JOURNAL_START_BLOCK + k * ALLOCATION_JOURNAL_SLOT_BLOCKS) <= i <
+              N.to_nat (ALLOCATION_JOURNAL_START_BLOCK + k * ALLOCATION_JOURNAL_SLOT_BLOCKS) + 3)%nat -> nth i img' [] = nth i img []) ->
+  slot_bytes img' k = slot_bytes img k.
+Proof. intros L H. unfold slot_bytes. f_equal. apply window_eq; assumption. Qed.
+
+Lemma clear_image_is_one_block g : length (encode_journal g JOURNAL_CLEAR []) = BLOCK.
+Proof. rewrite encode_journal_length. vm_compute. reflexivity. Qed.
+
+Lemma slot_bytes_written (imM : image) w g :
+  w < ALLOCATION_JOURNAL_SLOTS -> (N.to_nat FEOX_METADATA_BACKUP_BLOCK <= length imM)%nat ->
+  exists rest, slot_bytes (write_journal imM w g JOURNAL_CLEAR []) w = encode_journal g JOURNAL_CLEAR [] ++ rest.
+Proof.
+  intros Hw Hl. unfold write_journal, slot_bytes.
+  set (j := encode_journal g JOURNAL_CLEAR []).
+  pose proof (clear_image_is_one_block g) as Lj. fold j in Lj.
+  rewrite Lj. replace (Nat.div BLOCK BLOCK) with 1%nat by (vm_compute; reflexivity).
+  cbn [chunk_blocks]. replace (firstn BLOCK j) with j by (symmetry; apply firstn_all2; lia).
+  destruct (journal_slots_lie_between_the_metadata_copies w Hw) as (_ & E & _). cbv zeta in E.
+  set (i := N.to_nat (ALLOCATION_JOURNAL_START_BLOCK + w * ALLOCATION_JOURNAL_SLOT_BLOCKS)) in *.
+  assert (Hi : (i + 3 <= length imM)%nat).
+  { unfold i. change (N.to_nat FEOX_METADATA_BACKUP_BLOCK) with 7%nat in Hl. change ALLOCATION_JOURNAL_SLOT_BLOCKS with 3 in E |- *.
+    change FEOX_METADATA_BACKUP_BLOCK with 7 in E. lia. }
+  unfold set_blocks. fold i.
+  set (X := skipn (i + 1) imM).
+  match goal with |- context [skipn i ?t] => assert (S : skipn i t = j :: X) end.
+  { rewrite skipn_app. rewrite skipn_all2 by (rewrite firstn_length; lia).
+    rewrite firstn_length, Nat.min_l by lia. rewrite Nat.sub_diag. cbn [skipn app].
+    destruct (length imM - i)%nat as [|k] eqn:D; [lia|]. cbn [firstn]. rewrite firstn_nil. reflexivity. }
+  rewrite S. exists (concat (firstn 2 X)). reflexivity.
+Qed.
+
+Lemma rolled_back_low_blocks img jgen jslot s n k :
+  (N.to_nat FEOX_METADATA_BACKUP_BLOCK <= length img)%nat -> FEOX_DATA_START_BLOCK <= s ->
+  (k < N.to_nat FEOX_DATA_START_BLOCK)%nat ->
+  let q := jnext (mkjpos jgen jslot) in
+  let first := N.to_nat (ALLOCATION_JOURNAL_START_BLOCK + j_slot q * ALLOCATION_JOURNAL_SLOT_BLOCKS) in
+  (k < first \/ first + N.to_nat ALLOCATION_JOURNAL_SLOT_BLOCKS <= k)%nat ->
+  nth k (rolled_back img jgen jslot s n) [] = nth k img [].
+Proof.
+  intros Hl Hs Hk q first Hout. unfold rolled_back. fold q.
+  assert (L7 : (N.to_nat FEOX_METADATA_BACKUP_BLOCK <= length (write_markers img [(s, n)]))%nat) by (rewrite write_markers_len; exact Hl).
+  rewrite (proj2 (journal_write_stays_in_its_slot (write_markers img [(s, n)]) (j_slot q) (j_gen q) JOURNAL_CLEAR [] k (jnext_slot _) ltac:(cbn; lia) L7) Hout).
+  apply write_markers_out. intros (s' & n' & [E|[]] & R). injection E as <- <-. lia.
+Qed.
+
+Lemma rolled_back_journal img jgen jslot s n total e :
+  (N.to_nat FEOX_METADATA_BACKUP_BLOCK <= length img)%nat -> FEOX_DATA_START_BLOCK <= s ->
+  jgen < U64MAX -> e <> [] ->
+  decode_journal (slot_bytes img 0) (slot_bytes img 1) total = Some (jgen, jslot, e) ->
+  let img' := rolled_back img jgen jslot s n in
+  decode_journal (slot_bytes img' 0) (slot_bytes img' 1) total = Some (jgen + 1, j_slot (jnext (mkjpos jgen jslot)), []).
+Proof.
+  intros Hl Hs Hg Hne Hj img'.
+  assert (L7 : (N.to_nat FEOX_METADATA_BACKUP_BLOCK <= length (write_markers img [(s, n)]))%nat) by (rewrite write_markers_len; exact Hl).
+  assert (Len : length img' = length img).
+  { unfold img', rolled_back.
+    destruct (write_journal_contained (write_markers img [(s, n)]) (j_slot (jnext (mkjpos jgen jslot))) (j_gen (jnext (mkjpos jgen jslot)))
+                JOURNAL_CLEAR [] (jnext_slot _) ltac:(cbn; lia) L7) as [L1 _].
+    cbv zeta. rewrite L1. apply write_markers_len. }
+  assert (G0 : 0 < jgen + 1) by lia.
+  assert (G1 : jgen + 1 < 2 ^ 64) by (unfold U64MAX in Hg; lia).
+  destruct (decode_journal_inv _ _ _ _ _ _ Hj Hne) as [(-> & Z & D)|(-> & Z & D)].
+  - (* the ACTIVE record is in slot 0; the CLEAR record goes to slot 1 *)
+    assert (Q : j_slot (jnext (mkjpos jgen 0)) = 1) by (vm_compute; reflexivity).
+    destruct (slot_bytes_written (write_markers img [(s, n)]) 1 (jgen + 1) ltac:(vm_compute; reflexivity) L7) as (rest & W).
+    assert (U : slot_bytes img' 0 = slot_bytes img 0).
+    { apply slot_bytes_unchanged; [exact Len|]. intros i Hi. apply rolled_back_low_blocks; try assumption.
+      - change (N.to_nat (ALLOCATION_JOURNAL_START_BLOCK + 0 * ALLOCATION_JOURNAL_SLOT_BLOCKS)) with 1%nat in Hi. change (N.to_nat FEOX_DATA_START_BLOCK) with 16%nat. lia.
+      - rewrite Q. change (N.to_nat (ALLOCATION_JOURNAL_START_BLOCK + 0 * ALLOCATION_JOURNAL_SLOT_BLOCKS)) with 1%nat in Hi.
+        change (N.to_nat (ALLOCATION_JOURNAL_START_BLOCK + 1 * ALLOCATION_JOURNAL_SLOT_BLOCKS)) with 4%nat. lia. }
+    rewrite Q. rewrite U. unfold img', rolled_back. rewrite Q. cbn [jnext j_gen]. rewrite W.
+    unfold decode_journal. rewrite Z, D, encode_journal_not_zero, (clear_journal_slot_roundtrip _ _ _ G0 G1).
+    destruct (N.ltb_spec (jgen + 1) jgen); [lia|reflexivity].
+  - assert (Q : j_slot (jnext (mkjpos jgen 1)) = 0) by (vm_compute; reflexivity).
+    destruct (slot_bytes_written (write_markers img [(s, n)]) 0 (jgen + 1) ltac:(vm_compute; reflexivity) L7) as (rest & W).
+    assert (U : slot_bytes img' 1 = slot_bytes img 1).
+    { apply slot_bytes_unchanged; [exact Len|]. intros i Hi. apply rolled_back_low_blocks; try assumption.
+      - change (N.to_nat (ALLOCATION_JOURNAL_START_BLOCK + 1 * ALLOCATION_JOURNAL_SLOT_BLOCKS)) with 4%nat in Hi. change (N.to_nat FEOX_DATA_START_BLOCK) with 16%nat. lia.
+      - rewrite Q. change (N.to_nat (ALLOCATION_JOURNAL_START_BLOCK + 1 * ALLOCATION_JOURNAL_SLOT_BLOCKS)) with 4%nat in Hi.
+        change (N.to_nat (ALLOCATION_JOURNAL_START_BLOCK + 0 * ALLOCATION_JOURNAL_SLOT_BLOCKS)) with 1%nat.
+        change (N.to_nat ALLOCATION_JOURNAL_SLOT_BLOCKS) with 3%nat. lia. }
+    rewrite Q. rewrite U. unfold img', rolled_back. rewrite Q. cbn [jnext j_gen]. rewrite W.
+    unfold decode_journal. rewrite Z, D, encode_journal_not_zero, (clear_journal_slot_roundtrip _ _ _ G0 G1).
+    destruct (N.ltb_spec jgen (jgen + 1)); [reflexivity|lia].
+Qed.
+
+(* C04 for this class of crash images: what the first open leaves behind is a file at rest, so
+   opening it again -- any number of times -- changes nothing and gives the same answer *)
+Theorem recovery_from_a_crashed_batch_is_idempotent c img m jgen jslot its1 r its2 k :
+  c_ro c = false -> c_now c = None ->
+  (17 <= length img)%nat ->
+  let total := N.of_nat (length img) in
+  let mb := if select_meta (nth_block img 0) (nth_block img (N.to_nat FEOX_METADATA_BACKUP_BLOCK))
+            then nth_block img (N.to_nat FEOX_METADATA_BACKUP_BLOCK) else nth_block img 0 in
+  let v := m_version m in
+  let s := FEOX_DATA_START_BLOCK + isum v its1 in
+  let n := need_of v r in
+  list_eqb (firstn 8 mb) SIGNATURE = true -> decode_meta mb = Some m -> has_token v = true ->
+  decode_journal (slot_bytes img 0) (slot_bytes img 1) total = Some (jgen, jslot, [(s, n)]) ->
+  jgen < U64MAX ->
+  total * FEOX_BLOCK_SIZE < U64 ->
+  Forall (item_ok v) (its1 ++ IRec r :: its2) -> distinct_keys (recs_of (its1 ++ its2)) ->
+  skipn (N.to_nat FEOX_DATA_START_BLOCK) img = ilayout v FEOX_DATA_START_BLOCK (its1 ++ IRec r :: its2) ->
+  let img' := snd (open_image c img) in
+  reopen c k img' = open_image c img' /\ snd (open_image c img') = img'.
+Proof.
+  intros Hrw Hnow Hlen total mb v s n Hsig Hdec Htok Hj Hg Hu Hok Hd Himg img'.
+  destruct (crashed_batch_is_rolled_back c img m jgen jslot its1 r its2 Hrw Hnow Hlen Hsig Hdec Htok Hj Hg Hu Hok Hd Himg)
+    as (o & im & E & Len & Lay & _ & _ & _ & Eq).
+  fold total mb v s n in E, Len, Lay, Eq.
+  assert (Ei : img' = im) by (unfold img'; rewrite E; reflexivity).
+  rewrite Ei. clear Ei img'.
+  assert (Hl7 : (N.to_nat FEOX_METADATA_BACKUP_BLOCK <= length img)%nat) by (change (N.to_nat FEOX_METADATA_BACKUP_BLOCK) with 7%nat; lia).
+  assert (Hs : FEOX_DATA_START_BLOCK <= s) by (unfold s; lia).
+  pose proof (proj1 (Forall_app _ _ _) Hok) as [Hok1 Hok2r].
+  pose proof (Forall_inv Hok2r) as Hr. pose proof (Forall_inv_tail Hok2r) as Hok2.
+  assert (Hn : 0 < n) by (apply need_of_pos; exact Hr).
+  assert (Hok' : Forall (item_ok v) (its1 ++ IMark n :: its2)).
+  { apply Forall_app. split; [exact Hok1|]. constructor; [exact Hn|exact Hok2]. }
+  assert (Hd' : distinct_keys (recs_of (its1 ++ IMark n :: its2))) by (rewrite !recs_of_app in *; exact Hd).
+  (* the metadata copies are where they were *)
+  assert (B0 : nth_block im 0 = nth_block img 0).
+  { unfold nth_block. rewrite Eq. apply rolled_back_low_blocks; try assumption; [change (N.to_nat FEOX_DATA_START_BLOCK) with 16%nat; lia|].
+    left. destruct (journal_slots_lie_between_the_metadata_copies _ (jnext_slot (mkjpos jgen jslot))) as (A & _). cbv zeta in A.
+    change FEOX_METADATA_BLOCK with 0 in A. lia. }
+  assert (B7 : nth_block im (N.to_nat FEOX_METADATA_BACKUP_BLOCK) = nth_block img (N.to_nat FEOX_METADATA_BACKUP_BLOCK)).
+  { unfold nth_block. rewrite Eq. apply rolled_back_low_blocks; try assumption; [vm_compute; lia|].
+    right. destruct (journal_slots_lie_between_the_metadata_copies _ (jnext_slot (mkjpos jgen jslot))) as (_ & A & _). cbv zeta in A. lia. }
+  (* its journal is clear *)
+  pose proof (rolled_back_journal img jgen jslot s n total [(s, n)] Hl7 Hs Hg ltac:(discriminate) Hj) as J. cbv zeta in J. rewrite <- Eq in J.
+  apply (reopening_a_quiescent_file_changes_nothing c im m (jgen + 1) (j_slot (jnext (mkjpos jgen jslot))) (its1 ++ IMark n :: its2) k Hrw Hnow).
+  - rewrite Len. exact Hlen.
+  - rewrite B0, B7. exact Hsig.
+  - rewrite B0, B7. exact Hdec.
+  - exact Htok.
+  - rewrite Len. exact J.
+  - rewrite Len. exact Hu.
+  - exact Hok'.
+  - exact Hd'.
+  - exact Lay.
 Qed.
